@@ -87,6 +87,7 @@ def check_pair(run, model, rng, good, junk, plugins, bits, i):
                 r2 = run_modes(d2, [m for m in modes if m[0] != "-n"], tmp + "/b")
             with dirgen.TempDir(good + junk, subdirs=subdirs) as d3:
                 r2.update(run_modes(d3, [m for m in modes if m[0] == "-n"], tmp + "/c"))
+            junk_la_only = list(junk_la)
             junk = junk + junk_la
         finally:
             shutil.rmtree(tmp, ignore_errors=True)
@@ -124,6 +125,31 @@ def check_pair(run, model, rng, good, junk, plugins, bits, i):
                     json.loads(out2)
                 except Exception:
                     run.violation("stdout-not-json:" + key, "standard output of %s is not one JSON document" % key, dict(rp, kind="S", mode=key, stdout=out2[:600]))
+        # the directory with its junk against the Coq CLI model (entries that cannot be opened flagged as such)
+        for mode, key in ((0, "-n"), (1, "-l"), (2, "-a")):
+            if key not in r2 or r2[key][0] != 0:
+                continue
+            files_m = good + (junk if key != "-n" else [f for f in junk if f not in junk_la_only])
+            try:
+                mp = pelgen.to_py(dirgen.model_cli_o(model, mode, files_m, plugins=plugins, bits=bits))
+                out2 = json.loads(r2[key][1], object_pairs_hook=OrderedDict)
+            except pelgen.Unsupported:
+                run.unsupported += 1
+                continue
+            except Exception:  # noqa: BLE001 - unreadable stdout is reported above
+                continue
+            if mode == 0:
+                ok = mp.get("count") == out2.get("Number of PELs found")
+            elif mode == 1:
+                ok = pelgen.first_diff(mp.get("list"), out2) is None
+            else:
+                ok = pelgen.first_diff(mp.get("all"), list(out2)) is None
+            run.count("model:" + key)
+            if not ok:
+                run.disagreements_checked += 1
+                run.violation("model:cli_o:" + key, "the CLI model (with unreadable entries) and peltool %s disagree" % key,
+                              dict(rp, kind="M", correspondence="Model.Cli mode_*_o vs peltool.main()", mode=key,
+                                   expected=str(mp)[:600], actual=r2[key][1][:600]), no_input=True)
         if i < 2:
             run.sample(dict(good=[f[0] for f in good], junk=[f[0] for f in junk], modes=[m[0] for m in modes]))
 
